@@ -22,6 +22,13 @@ func drawC13(rt *rapid.T) *Case {
 	r := gen.Render(p, gen.Canon)
 	d := gen.DistinctLeaves(g.Doc(p))
 	c := &Case{Path: r.Text, AST: p, Texts: r.Steps, Doc: d, UseNumber: rapid.Bool().Draw(rt, "usenumber"), Funcs: funcs}
+	if gen.Uniform(rt, "opaque", 12) == 0 {
+		// a document holding values that are not decoded JSON (typed maps and slices, pointers,
+		// Accessors ...): no accessor may lead into them
+		c.Doc = g.Opaquify(d)
+		c.DocKind = "opaque"
+		return c
+	}
 	// indices to probe when there are many results, and the history
 	for i := 0; i < 4; i++ {
 		c.Ints = append(c.Ints, rapid.IntRange(0, 1000).Draw(rt, "probe"))
@@ -137,6 +144,10 @@ func checkC13(c *Case, st *Stats) string {
 	if res.Unspecified {
 		st.Class("unspecified")
 		return ""
+	}
+	if c.DocKind == "opaque" {
+		st.Class("doc:opaque-values")
+		return accessorModeAgainstSpec(c, res, st)
 	}
 	firstDoc := c.Document()
 	accs, rerr, msg := accessorsOf(c, firstDoc)
